@@ -40,6 +40,16 @@ CHECKS = {
             "Schedule space is what the evaluator offers (top-level statement safepoints). Poisoning turns dangling "
             "reads into faults deterministically but a dangling pointer never dereferenced is not observed.",
             "DESIGN.md#c03"),
+    "C05": ("exploration",
+            "exhaustive enumeration of all short texts / token sequences and of the edit neighbourhood of a corpus, x dialect lattice; invariants checked on every parse",
+            "Every string of length <=5/6 over a 17-symbol alphabet derived from the lexer's case analysis (quotes, backslash, "
+            "CR/LF/tab, #, braces, f/r/b prefixes, a 2-byte char), every sequence of <=3/4 of 43 tokens, every 1-edit (2-edit "
+            "in thorough) token- and character-level neighbour of a corpus (seeds + the repository's golden programs), nesting "
+            "ladders to depth 200 and a line-ending matrix are parsed under dialect corners none<=std<=ext<=all; accepted "
+            "token-level inputs under all 384 parser-relevant dialects with every monotonicity edge. Each parse: no panic, "
+            "located error on char boundaries, node spans nested in parents, identifier/literal spans re-lex to themselves.",
+            "Texts longer than the bounds are covered only through the edit neighbourhoods; 8 MiB stack as in the test suite.",
+            "DESIGN.md#c05"),
     "C08": ("exploration",
             "complete enumeration of the finite signature x call-shape space on every call path, differential against CPython performing the same call",
             "All parameter lists up to the tier bound over the six parameter kinds (plus 15 illegal orders) x all call shapes "
